@@ -449,7 +449,10 @@ Pipeline P { ComputeShader = CSMAIN; }
     );
     for (name, src) in [
         ("rejected-undefined-name", "static float a = 1.0;\nstatic float b = 2.0;\nfloat f() { return a + b + c; }\n"),
-        ("rejected-ambiguous-overload", "float f(float a, int b) { return a; }\nfloat f(int a, float b) { return b; }\nfloat g() { return f(1, 1); }\n"),
+        ("rejected-no-matching-overload", "float f(float a, int b) { return a; }\nfloat f(int a, float b) { return b; }\nfloat f(bool3 a, bool3 b) { return 0.0; }\nfloat g() { return f(1, 1); }\n"),
+        ("rejected-ambiguous-overload-2", "float pick(int a, int b) { return 1.0; }\nfloat pick(uint a, uint b) { return 2.0; }\nfloat g() { return pick(0.0, 0.0); }\n"),
+        ("rejected-ambiguous-overload-3", "float pick(int a) { return 1.0; }\nfloat pick(uint a) { return 2.0; }\nfloat pick(bool a) { return 3.0; }\nfloat pick(half a) { return 4.0; }\nfloat g() { return pick(0.0L); }\n"),
+        ("rejected-ambiguous-method", "struct S { float m(int a) { return 1.0; } float m(uint a) { return 2.0; } float m(half a) { return 3.0; } };\nfloat g(S s) { return s.m(0.0); }\n"),
         ("rejected-redefinition", "namespace N { float a; float b; }\nnamespace N { float c; float a; }\n"),
         ("rejected-const-write", "struct S { float a; float b; };\nvoid f(const S s) { s.a = 1.0; }\n"),
         ("rejected-parse", "float f() { return (1.0 + ; }\n"),
@@ -552,6 +555,23 @@ pub fn run(ctx: &Ctx) -> i32 {
     let schedules = r.acc.evals;
     rep.absorb("deviation_subtrees", r);
 
+    // ---- history: a compile is a pure function of its inputs, also after other compiles on the same thread
+    {
+        let hs = history_inputs();
+        let reps: Vec<usize> = if ctx.quick() { vec![1, 40] } else { vec![1, 2, 3, 17, 40, 200] };
+        let nh = hs.len() as u64;
+        let nr = reps.len() as u64;
+        let r = run_par(ctx, nh * nh * nr * 4, 4, |idx, acc| {
+            let mut d = Vec::new();
+            decode(idx, &[4, nr, nh, nh], &mut d);
+            let cfg = ALL_CFGS[d[0] as usize];
+            check_history(&hs[d[3] as usize], reps[d[1] as usize], &hs[d[2] as usize], cfg, acc);
+        });
+        rep.cov("history_inputs", Json::Int(hs.len() as i64));
+        rep.cov("history_repetitions", Json::Arr(reps.iter().map(|n| Json::Int(*n as i64)).collect()));
+        rep.absorb("history_A^n_then_B", r);
+    }
+
     let sites: Vec<Json> = per_site
         .iter()
         .map(|(s, (reached, maxn))| obj(vec![("site", s.as_str().into()), ("times_reached_in_reference_runs", (*reached).into()), ("max_elements", (*maxn).into())]))
@@ -577,7 +597,88 @@ pub fn run(ctx: &Ctx) -> i32 {
     finish(ctx, rep)
 }
 
+// ---------------------------------------------------------------------------------------------
+// history: B compiled after n compiles of A (same thread) must equal B compiled on a fresh thread
+
+pub struct HInput {
+    name: &'static str,
+    files: Vec<(&'static str, &'static str)>,
+    mode: Mode,
+}
+
+fn history_inputs() -> Vec<HInput> {
+    let ok_pipeline = "RWByteAddressBuffer g_out;\n[numthreads(1, 1, 1)]\nvoid CSMAIN() { g_out.Store(0, 1u); }\nPipeline P { ComputeShader = CSMAIN; }\n";
+    let h = |name, files: Vec<(&'static str, &'static str)>, mode| HInput { name, files, mode };
+    vec![
+        h("ok-plain", vec![("main.rssl", "static float s = 1.0;\nfloat f(float a) { float vertex = a; return vertex + s; }\n")], Mode::NoPipeline),
+        h("ok-pipeline", vec![("main.rssl", ok_pipeline)], Mode::All),
+        h("ok-include", vec![("main.rssl", "#include \"a.rssl\"\nfloat f() { return A; }\n"), ("a.rssl", "#pragma once\n#define A 1.0\n")], Mode::NoPipeline),
+        h("ok-include-depth-3", vec![("main.rssl", "#include \"a.rssl\"\nfloat f() { return C; }\n"), ("a.rssl", "#include \"b.rssl\"\n"), ("b.rssl", "#include \"c.rssl\"\n"), ("c.rssl", "#define C 3.0\n")], Mode::NoPipeline),
+        h("ok-macros-and-conditions", vec![("main.rssl", "#define F(x) (x + 1)\n#if defined(F) && 1\nint f() { return F(2); }\n#else\nint f() { return 0; }\n#endif\n")], Mode::NoPipeline),
+        h("ok-templates-and-renames", vec![("main.rssl", "template<typename T> T id(T a) { return a; }\nstruct kernel { float a; };\nfloat f(kernel k) { return id<float>(k.a) + id<int>(1); }\n")], Mode::NoPipeline),
+        h("err-lexer", vec![("main.rssl", "float f() { return `1.0; }\n")], Mode::NoPipeline),
+        h("err-preprocessor-unterminated-if", vec![("main.rssl", "#if 1\nfloat f() { return 1.0; }\n")], Mode::NoPipeline),
+        h("err-preprocessor-missing-include", vec![("main.rssl", "#include \"nofile.rssl\"\n")], Mode::NoPipeline),
+        h("err-parser", vec![("main.rssl", "float f() { return (1.0 + ; }\n")], Mode::NoPipeline),
+        h("err-typer", vec![("main.rssl", "float f() { return undefined_name; }\n")], Mode::NoPipeline),
+        h("err-typer-in-template", vec![("main.rssl", "template<typename T> T bad(T a) { return a.nothing; }\nfloat f() { return bad<float>(1.0); }\n")], Mode::NoPipeline),
+        h("err-in-include-depth-1", vec![("main.rssl", "#include \"a.rssl\"\nfloat f() { return 1.0; }\n"), ("a.rssl", "#if 1\n")], Mode::NoPipeline),
+        h("err-in-include-depth-2", vec![("main.rssl", "#include \"a.rssl\"\n"), ("a.rssl", "#include \"b.rssl\"\n"), ("b.rssl", "#define 1\n")], Mode::NoPipeline),
+        h("err-in-include-depth-3-lexer", vec![("main.rssl", "#include \"a.rssl\"\n"), ("a.rssl", "#include \"b.rssl\"\n"), ("b.rssl", "#include \"c.rssl\"\n"), ("c.rssl", "float g() { return `; }\n")], Mode::NoPipeline),
+        h("err-macro-arguments-never-end", vec![("main.rssl", "#define F(x) x\nint a = F(1;\n")], Mode::NoPipeline),
+        h("err-backend-msl-double", vec![("main.rssl", "RWByteAddressBuffer g_out;\n[numthreads(1, 1, 1)]\nvoid CSMAIN() { double d = 1.0L; g_out.Store(0, (uint)d); }\nPipeline P { ComputeShader = CSMAIN; }\n")], Mode::All),
+        h("err-pipeline-unknown-entry", vec![("main.rssl", "Pipeline P { ComputeShader = nothing; }\n")], Mode::All),
+    ]
+}
+
+fn hrun(i: &HInput, cfg: Cfg) -> String {
+    match guard(|| Job { files: &i.files, entry: "main.rssl", defines: &[], cfg, mode: i.mode.clone(), validate_layout: false }.run()) {
+        Ok(r) => render_result(&r),
+        Err(p) => format!("PANIC {}", p.signature()),
+    }
+}
+
+/// every sequence runs on its own fresh thread, so thread-local state starts empty
+fn check_history(a: &HInput, n: usize, b: &HInput, cfg: Cfg, acc: &mut Acc) {
+    acc.evals += 1;
+    let run = |prefix: usize| -> String {
+        std::thread::scope(|s| {
+            s.spawn(|| {
+                for _ in 0..prefix {
+                    let _ = hrun(a, cfg);
+                }
+                hrun(b, cfg)
+            })
+            .join()
+            .unwrap_or_else(|_| "PANIC (thread)".to_string())
+        })
+    };
+    let fresh = run(0);
+    let after = run(n);
+    if fresh != after {
+        acc.violation(Violation {
+            signature: format!("history-dependent|after-{}|{}", if a.name.starts_with("err") { "rejected-compiles" } else { "accepted-compiles" }, if b.name.starts_with("err") { "diagnostic" } else { "output" }),
+            detail: format!("[{}] `{}` compiled after {} compile(s) of `{}` on the same thread differs from its compile on a fresh thread: {}", cfg.name(), b.name, n, a.name, first_diff(&fresh, &after)),
+            replay: format!("kind: history\ncfg: {}\na: {}\nn: {}\nb: {}\n=====\n", cfg.name(), a.name, n, b.name),
+        });
+    } else {
+        acc.outcome(&("history", b.name, cfg, hash_of(&after)));
+    }
+}
+
 pub fn replay(ctx: &Ctx, body: &str) -> i32 {
+    if body.starts_with("kind: history") {
+        let mut acc = Acc::default();
+        let get = |k: &str| body.lines().find_map(|l| l.strip_prefix(k)).unwrap_or("").trim().to_string();
+        let hs = history_inputs();
+        let (a, b) = (hs.iter().find(|h| h.name == get("a: ")), hs.iter().find(|h| h.name == get("b: ")));
+        let (Some(a), Some(b)) = (a, b) else {
+            eprintln!("machinery error: unknown history input");
+            return 2;
+        };
+        check_history(a, get("n: ").parse().unwrap_or(1), b, Cfg::from_name(&get("cfg: ")).unwrap_or(Cfg::Dx), &mut acc);
+        return finish_replay(ctx, &acc);
+    }
     let Some((head, src)) = body.split_once("\n=====\n") else {
         eprintln!("machinery error: bad replay file");
         return 2;
